@@ -284,23 +284,23 @@ Section Post.
   Variable T : Type.
   Variable stampT : T -> Z.
   Variable goodT : T -> Prop.
-  Notation helper_post := (helper_post T stampT goodT).
+  Notation hp := (helper_post T stampT goodT).
   (** Consequences of [helper_post]: multiples are returned unchanged; an [Ok] result is a
       multiple; the error classification is exact. *)
-  Lemma helper_fixed f x k out : helper_post f x k out ->
+  Lemma helper_fixed f x k out : hp f x k out ->
     span_bad k = false -> in_i64 (stampT x) = true -> (k | stampT x) -> out = inl x.
   Proof.
     unfold helper_post. intros H Hb Hi Hd. rewrite Hb, Hi in H. cbn [negb] in H.
     destruct H as (r & -> & _ & _ & Hf). f_equal. apply Hf. apply multiple_rem; [unfold span_bad in Hb; lia|exact Hd].
   Qed.
-  Lemma helper_ok f x k r : helper_post f x k (inl r) ->
+  Lemma helper_ok f x k r : hp f x k (inl r) ->
     0 < k <= i64_max /\ in_i64 (stampT x) = true /\ goodT r /\ stampT r = f (stampT x) k.
   Proof.
     unfold helper_post. intros H. destruct (span_bad k) eqn:Hb; [discriminate|].
     destruct (in_i64 (stampT x)) eqn:Hi; cbn [negb] in H; [|discriminate].
     destruct H as (r' & Hr & Hg & Hs & _). injection Hr as <-. unfold span_bad in Hb. repeat split; auto; lia.
   Qed.
-  Lemma helper_err f x k e : helper_post f x k (inr e) ->
+  Lemma helper_err f x k e : hp f x k (inr e) ->
     (e = DurationExceedsLimit /\ (k <= 0 \/ i64_max < k)) \/
     (e = TimestampExceedsLimit /\ 0 < k <= i64_max /\ in_i64 (stampT x) = false).
   Proof.
@@ -310,13 +310,13 @@ Section Post.
       + destruct H as (r & Hr & _). discriminate.
       + right. injection H as ->. unfold span_bad in Hb. repeat split; lia.
   Qed.
-  Lemma helper_err_iff f x k out : helper_post f x k out -> forall e, out = inr e <->
+  Lemma helper_err_iff f x k out : hp f x k out -> forall e, out = inr e <->
     (e = DurationExceedsLimit /\ (k <= 0 \/ i64_max < k)) \/
     (e = TimestampExceedsLimit /\ 0 < k <= i64_max /\ in_i64 (stampT x) = false).
   Proof.
     intros H e. split.
     - intros ->. apply (helper_err f x k e H).
-    - unfold V.Proofs.C17.helper_post in H. intros [[-> Hk]|[-> [Hk Hi]]].
+    - unfold helper_post in H. intros [[-> Hk]|[-> [Hk Hi]]].
       + replace (span_bad k) with true in H by (unfold span_bad; lia). exact H.
       + replace (span_bad k) with false in H by (unfold span_bad; lia). rewrite Hi in H. exact H.
   Qed.
@@ -623,3 +623,193 @@ Lemma examples :
   rmap enc_ndt (trunc_subsecs ndt_ops (ex_ndt 2016 366 86399 1750500000) 1)
     = Val (VTup [VInt 2016; VInt 366; VInt 86399; VInt 1700000000]).
 Proof. vm_compute. repeat split. Qed.
+
+(** * D. sub-second digits *)
+Notation sub_span := V.Judge.C17.sub_span.
+Notation sub_frac := V.Judge.C17.sub_frac.
+Definition GG := 1000000000.
+
+Lemma span_for_digits_spec digits : 0 <= digits -> span_for_digits digits = sub_span digits.
+Proof.
+  intros H. unfold span_for_digits, V.Judge.C17.sub_span.
+  destruct (Z_lt_dec digits 9) as [Hlt|Hge].
+  - assert (Hc : digits = 0 \/ digits = 1 \/ digits = 2 \/ digits = 3 \/ digits = 4 \/ digits = 5 \/
+                 digits = 6 \/ digits = 7 \/ digits = 8) by lia.
+    repeat (destruct Hc as [->|Hc]; [vm_compute; reflexivity|]). subst. vm_compute. reflexivity.
+  - rewrite Z.min_l by lia. cbn.
+    repeat (match goal with |- context [digits =? ?k] => destruct (digits =? k) eqn:?; [lia|] end). reflexivity.
+Qed.
+Lemma sub_span_cases digits : 0 <= digits ->
+  let sp := sub_span digits in
+  sp = 1000000000 \/ sp = 100000000 \/ sp = 10000000 \/ sp = 1000000 \/ sp = 100000 \/ sp = 10000 \/
+  sp = 1000 \/ sp = 100 \/ sp = 10 \/ sp = 1.
+Proof.
+  intros H. cbv zeta. unfold V.Judge.C17.sub_span. destruct (Z_lt_dec digits 9) as [Hlt|Hge].
+  - assert (Hc : digits = 0 \/ digits = 1 \/ digits = 2 \/ digits = 3 \/ digits = 4 \/ digits = 5 \/
+                 digits = 6 \/ digits = 7 \/ digits = 8) by lia.
+    repeat (destruct Hc as [->|Hc]; [vm_compute; tauto|]). subst. vm_compute. tauto.
+  - rewrite Z.min_l by lia. vm_compute. tauto.
+Qed.
+Lemma sub_span_divides digits : 0 <= digits -> 0 < sub_span digits /\ (sub_span digits | GG).
+Proof.
+  intros H. unfold GG. pose proof (sub_span_cases digits H) as Hc. cbv zeta in Hc.
+  repeat (destruct Hc as [->|Hc]; [split; [lia|]; match goal with |- (?a | ?b) => exists (b / a); vm_compute; reflexivity end|]).
+  rewrite Hc. split; [lia|]. exists 1000000000. reflexivity.
+Qed.
+Lemma mod_mod_divides s a b : 0 < a -> (a | b) -> 0 < b -> (s mod b) mod a = s mod a.
+Proof.
+  intros Ha [c ->] Hb. rewrite (Z.mul_comm c a). rewrite Z.rem_mul_r by nia.
+  rewrite Z.mul_comm. rewrite Z.mod_add by lia. apply Z.mod_mod. lia.
+Qed.
+
+(** ** generic carrier, modulo add-exactness.  [LO..HI] is the range on which + / - are exact
+    (chrono's whole range for the real types); [nano_exact]: on non-leap values the nanosecond
+    field is the stamp's fraction.  "Sub-second rounding to N digits does the same within the
+    second": it is rounding / truncation to the span 10^(9-min(9,N)) ns, carry included. *)
+Section SubsecGeneric.
+  Variable T : Type.
+  Variable ops : tl T.
+  Variable stampT : T -> Z.
+  Variable goodT : T -> Prop.
+  Variables LO HI : Z.
+  Hypothesis nano_exact : forall x, goodT x -> tl_nanosecond ops x = Val (stampT x mod GG).
+  Hypothesis add_exact : forall x d, goodT x -> valid d -> LO <= stampT x + ns d <= HI ->
+    exists r, tl_add ops x d = Val r /\ goodT r /\ stampT r = stampT x + ns d.
+  Hypothesis sub_exact : forall x d, goodT x -> valid d -> LO <= stampT x - ns d <= HI ->
+    exists r, tl_sub ops x d = Val r /\ goodT r /\ stampT r = stampT x - ns d.
+
+  Lemma nanos_small n : 0 <= n < GG -> exists d, nanoseconds n = Val d /\ ns d = n /\ valid d.
+  Proof. intros H. apply V.Proofs.C06.nanoseconds_spec. unfold GG, in_i64, in_range, i64_min, i64_max in *. lia. Qed.
+
+  Lemma subsec_prefix x digits : goodT x -> 0 <= digits ->
+    let sp := sub_span digits in
+    tl_nanosecond ops x = Val (stampT x mod GG) /\
+    rem_u32 (stampT x mod GG) (span_for_digits digits) = Val (stampT x mod sp) /\
+    0 < sp <= GG /\ 0 <= stampT x mod sp < sp.
+  Proof.
+    intros Hx Hd sp. destruct (sub_span_divides digits Hd) as [Hp Hdiv]. fold sp in Hp, Hdiv.
+    assert (Hle : sp <= GG) by (apply Z.divide_pos_le; [unfold GG; lia|exact Hdiv]).
+    pose proof (Z.mod_pos_bound (stampT x) GG ltac:(unfold GG; lia)) as Hf.
+    split; [apply nano_exact; exact Hx|]. split; [|split; [lia|apply Z.mod_pos_bound; lia]].
+    rewrite span_for_digits_spec by lia. fold sp. unfold rem_u32. rewrite rem_t_nz by lia.
+    rewrite Z.rem_mod_nonneg by lia. rewrite mod_mod_divides by (unfold GG in *; lia || assumption).
+    replace (in_u32 (Z.quot (stampT x mod GG) sp)) with true; [reflexivity|]. symmetry.
+    rewrite Z.quot_div_nonneg by lia. unfold in_u32, in_range, u32_max.
+    assert (0 <= (stampT x mod GG) / sp <= stampT x mod GG).
+    { split; [apply Z.div_pos; lia|]. apply Z.div_le_upper_bound; [lia|]. nia. }
+    unfold GG in *. lia.
+  Qed.
+
+  Theorem trunc_subsecs_spec x digits : goodT x -> 0 <= digits ->
+    LO <= m_trunc (stampT x) (sub_span digits) <= HI ->
+    exists r, trunc_subsecs ops x digits = Val r /\ goodT r /\
+              stampT r = m_trunc (stampT x) (sub_span digits) /\
+              (stampT x mod sub_span digits = 0 -> r = x).
+  Proof.
+    intros Hx Hd Hw. destruct (subsec_prefix x digits Hx Hd) as (H1 & H2 & Hsp & Hm).
+    unfold trunc_subsecs. rewrite H1. cbn [bind]. rewrite H2. cbn [bind].
+    set (sp := sub_span digits) in *. set (s := stampT x) in *.
+    destruct (div_mod_P s sp ltac:(lia)) as [HP _]. unfold V.Judge.C17.m_trunc in *.
+    destruct (s mod sp >? 0) eqn:E.
+    - destruct (nanos_small (s mod sp) ltac:(lia)) as (d & Hdn & Hns & Hv). rewrite Hdn. cbn [bind].
+      destruct (sub_exact x d Hx Hv ltac:(rewrite Hns; fold s; lia)) as (r & Hr & Hg & Hs).
+      exists r. rewrite Hns in Hs. fold s in Hs. repeat split; auto; lia.
+    - exists x. repeat split; auto. fold s. lia.
+  Qed.
+
+  Theorem round_subsecs_spec x digits : goodT x -> 0 <= digits ->
+    LO <= m_round (stampT x) (sub_span digits) <= HI ->
+    exists r, round_subsecs ops x digits = Val r /\ goodT r /\
+              stampT r = m_round (stampT x) (sub_span digits) /\
+              (stampT x mod sub_span digits = 0 -> r = x).
+  Proof.
+    intros Hx Hd Hw. destruct (subsec_prefix x digits Hx Hd) as (H1 & H2 & Hsp & Hm).
+    unfold round_subsecs. rewrite H1. cbn [bind]. rewrite H2. cbn [bind]. rewrite (span_for_digits_spec digits Hd).
+    set (sp := sub_span digits) in *. set (s := stampT x) in *.
+    destruct (div_mod_P s sp ltac:(lia)) as [HP _]. unfold V.Judge.C17.m_round, V.Judge.C17.m_trunc in *.
+    set (P := sp * (s / sp)) in *. set (M := s mod sp) in *. clearbody P M.
+    replace (s - P) with M in * by lia.
+    destruct (M >? 0) eqn:E.
+    - destruct (M =? 0) eqn:E0; [lia|].
+      unfold sub_u32. rewrite chk_in by (unfold in_u32, in_range, u32_max, GG in *; lia). cbn [bind].
+      destruct (sp - M <=? M) eqn:E2.
+      + destruct (nanos_small (sp - M) ltac:(lia)) as (d & Hdn & Hns & Hv). rewrite Hdn. cbn [bind].
+        destruct (add_exact x d Hx Hv ltac:(rewrite Hns; fold s; lia)) as (r & Hr & Hg & Hs).
+        exists r. rewrite Hns in Hs. fold s in Hs. repeat split; auto; lia.
+      + destruct (nanos_small M ltac:(lia)) as (d & Hdn & Hns & Hv). rewrite Hdn. cbn [bind].
+        destruct (sub_exact x d Hx Hv ltac:(rewrite Hns; fold s; lia)) as (r & Hr & Hg & Hs).
+        exists r. rewrite Hns in Hs. fold s in Hs. repeat split; auto; lia.
+    - destruct (M =? 0) eqn:E0; [|lia]. exists x. repeat split; auto.
+  Qed.
+End SubsecGeneric.
+
+(** ** NaiveTime, outright (leap-second fractions included).  A time is [time_ok] when
+    secs < 86400 and frac < 2*10^9 (a leap fraction is representable on any second). *)
+Definition time_ok (t : Time.ntime) : Prop := 0 <= Time.tsecs t < 86400 /\ 0 <= Time.tfrac t < 2000000000.
+
+(* what the judge expects for kind 1 (Judge/C17.v, [judge_sub]) *)
+Definition time_expected (round : bool) (digits : Z) (t : Time.ntime) : Time.ntime :=
+  let leap := GG <=? Time.tfrac t in
+  let f := if leap then Time.tfrac t - GG else Time.tfrac t in
+  let '(f', carry) := sub_frac round digits f in
+  if carry then Time.mk_time ((Time.tsecs t + 1) mod 86400) 0
+  else Time.mk_time (Time.tsecs t) (if leap then f' + GG else f').
+
+Lemma nanoseconds_lt_G n : 0 <= n < GG -> nanoseconds n = Val (mk_td 0 n).
+Proof.
+  intros H. unfold nanoseconds, div_mod_floor_64, NPS, Gen.TimeDelta.TD_NANOS_PER_SEC, GG in *.
+  rewrite as_i64_id by reflexivity.
+  rewrite div_euclid_pos, rem_euclid_pos by lia.
+  replace (n / 1000000000) with 0 by lia. replace (n mod 1000000000) with n by lia.
+  cbn. rewrite as_i32_id by (unfold in_i32, in_range, i32_min, i32_max; lia). reflexivity.
+Qed.
+
+Ltac tsimp := cbn [Time.tsecs Time.tfrac secs nanos bind fst snd].
+Ltac in_solve := unfold in_i32, in_u32, in_i64, in_u64, in_range, i32_min, i32_max, u32_max, i64_min, i64_max, u64_max in *; lia.
+Ltac casts := repeat first
+  [ rewrite as_i32_id by in_solve | rewrite as_u32_id by in_solve
+  | rewrite as_i64_id by in_solve | rewrite as_u64_id by in_solve ].
+Ltac rs := cbv beta iota zeta delta [bind fst snd Time.tsecs Time.tfrac secs nanos].
+Ltac chks := rs; repeat (rewrite chk_in by in_solve; rs).
+
+Ltac dif := match goal with |- context [if ?c then _ else _] => destruct c eqn:? end.
+Ltac crunch :=
+  cbv beta iota zeta delta [bind fst snd Time.tsecs Time.tfrac secs nanos rmap chk
+    num_seconds subsec_nanos rem_euclid sub_i32 add_i32 add_i64 sub_i64 neg_i64 NPS Gen.TimeDelta.TD_NANOS_PER_SEC];
+  repeat (dif; cbv beta iota zeta delta [bind fst snd Time.tsecs Time.tfrac secs nanos]; try in_solve).
+
+(* t + n ns, 0 < n < 10^9 *)
+Lemma time_add_small t n : time_ok t -> 0 < n < GG ->
+  Time.op_add_td t (mk_td 0 n) = Val (
+    if GG <=? Time.tfrac t then
+      (if 2 * GG <=? Time.tfrac t + n then Time.mk_time ((Time.tsecs t + 1) mod 86400) (Time.tfrac t + n - 2 * GG)
+       else Time.mk_time (Time.tsecs t) (Time.tfrac t + n))
+    else
+      (if GG <=? Time.tfrac t + n then Time.mk_time ((Time.tsecs t + 1) mod 86400) (Time.tfrac t + n - GG)
+       else Time.mk_time (Time.tsecs t) (Time.tfrac t + n))).
+Proof.
+  intros [Hs Hf] Hn. unfold GG in *. destruct t as [ts tf]. cbn [Time.tsecs Time.tfrac] in *.
+  unfold Time.op_add_td, Time.overflowing_add_signed. cbn [Time.tsecs Time.tfrac secs nanos]. casts.
+  crunch; casts; try in_solve.
+  all: try (f_equal; f_equal; lia).
+  all: change (0 <? 86400) with true in *; cbv iota in *; in_solve.
+Qed.
+
+Lemma td_neg_small n : 0 < n < GG -> td_neg (mk_td 0 n) = Val (mk_td (-1) (GG - n)).
+Proof.
+  intros H. unfold GG in *. unfold td_neg. cbn [secs nanos]. replace (n =? 0) with false by lia.
+  unfold NPS, Gen.TimeDelta.TD_NANOS_PER_SEC, sub_i32, neg_i64, sub_i64.
+  rewrite !chk_in by in_solve. cbn [bind]. rewrite !chk_in by in_solve. cbn [bind]. reflexivity.
+Qed.
+
+(* t - n ns, 0 < n <= fraction within the second *)
+Lemma time_sub_small t n : time_ok t -> 0 < n < GG -> n <= Time.tfrac t mod GG ->
+  Time.op_sub_td t (mk_td 0 n) = Val (Time.mk_time (Time.tsecs t) (Time.tfrac t - n)).
+Proof.
+  intros [Hs Hf] Hn Hle. unfold Time.op_sub_td, Time.overflowing_sub_signed. rewrite td_neg_small by exact Hn.
+  unfold GG in *. destruct t as [ts tf]. cbn [Time.tsecs Time.tfrac bind] in *.
+  unfold Time.overflowing_add_signed. cbn [Time.tsecs Time.tfrac secs nanos]. casts.
+  crunch; casts; try in_solve.
+  all: try (f_equal; f_equal; lia).
+  all: change (0 <? 86400) with true in *; cbv iota in *; in_solve.
+Qed.
